@@ -69,6 +69,41 @@ type c08W struct {
 var c08Running atomic.Pointer[c08W]
 
 func execC08(c c08Case, x *verifkit.Ctx) (fail *verifkit.Failure) {
+	si := 0
+	r := runC08(c, func(steps int, last int, alive []bool) int {
+		var pick int
+		if si < len(c.Schedule) {
+			pick = c.Schedule[si]
+			si++
+		} else {
+			pick = steps // round robin once the drawn schedule is used up
+		}
+		return pick
+	}, false)
+	if r.fail != nil {
+		return r.fail
+	}
+	x.ClassIf(r.filledWhileOut, "filled-while-batch-outstanding")
+	x.ClassIf(r.casInterleaved, "tail-cas-interleaved")
+	x.ClassIf(r.batches > 1, "several-batches")
+	if r.filledWhileOut || r.casInterleaved {
+		x.NonTrivial()
+	}
+	return nil
+}
+
+type c08Result struct {
+	fail           *verifkit.Failure
+	filledWhileOut bool
+	casInterleaved bool
+	batches        int
+	trace          []int    // worker that ran at each step
+	aliveAt        []uint32 // bit set of workers not yet finished before each step
+}
+
+// runC08 executes one schedule. pick names the worker to run next (resolved to the next live
+// worker if that one has finished); last is the worker that ran the previous step (-1 at the start).
+func runC08(c c08Case, pick func(steps int, last int, alive []bool) int, keepTrace bool) (res c08Result) {
 	b := NewBuffer[int, int]()
 	added := map[uint64]bool{}
 	delivered := map[uint64]int{}
@@ -76,7 +111,13 @@ func execC08(c c08Case, x *verifkit.Ctx) (fail *verifkit.Failure) {
 	filledWhileOut := false
 	casInterleaved := false
 	outstanding := 0
-	fail = nil
+	var fail *verifkit.Failure
+	defer func() {
+		if res.fail == nil {
+			res.fail = fail
+		}
+		res.filledWhileOut, res.casInterleaved, res.batches = filledWhileOut, casInterleaved, batches
+	}()
 	record := func(pb *PolicyBuffers[int, int]) *verifkit.Failure {
 		batches++
 		if len(pb.Returned) > capacity {
@@ -102,7 +143,8 @@ func execC08(c c08Case, x *verifkit.Ctx) (fail *verifkit.Failure) {
 		added[id] = true
 		if pb := b.Add(ReadBufItem[int, int]{hash: id}); pb != nil {
 			if f := record(pb); f != nil {
-				return f
+				fail = f
+				return
 			}
 			b.Free()
 		}
@@ -152,25 +194,32 @@ func execC08(c c08Case, x *verifkit.Ctx) (fail *verifkit.Failure) {
 		}()
 	}
 	alive := len(ws)
-	si := 0
 	steps := 0
+	last := -1
+	aliveV := make([]bool, len(ws))
 	for alive > 0 {
-		var pick int
-		if si < len(c.Schedule) {
-			pick = c.Schedule[si]
-			si++
-		} else {
-			pick = steps // round robin once the drawn schedule is used up
+		var am uint32
+		for i, cand := range ws {
+			aliveV[i] = !cand.done
+			if !cand.done {
+				am |= 1 << uint(i)
+			}
 		}
+		p := pick(steps, last, aliveV)
 		steps++
 		// resolve to a live worker (construction, not rejection)
 		var w *c08W
 		for k := 0; k < len(ws); k++ {
-			cand := ws[(pick+k)%len(ws)]
+			cand := ws[(p+k)%len(ws)]
 			if !cand.done {
 				w = cand
 				break
 			}
+		}
+		last = w.idx
+		if keepTrace {
+			res.trace = append(res.trace, w.idx)
+			res.aliveAt = append(res.aliveAt, am)
 		}
 		c08Running.Store(w)
 		w.resume <- struct{}{}
@@ -180,7 +229,8 @@ func execC08(c c08Case, x *verifkit.Ctx) (fail *verifkit.Failure) {
 		case <-time.After(20 * time.Second):
 			f := verifkit.Failf("buffer/worker-stuck", "worker %d did not reach the next yield point within 20 s", w.idx)
 			f.Sticky = true
-			return f
+			fail = f
+			return
 		}
 		if ev.done {
 			w.done = true
@@ -200,13 +250,15 @@ func execC08(c c08Case, x *verifkit.Ctx) (fail *verifkit.Failure) {
 			}
 		}
 		if steps > 200000 {
-			return verifkit.Failf("harness/too-many-steps", "schedule did not finish")
+			fail = verifkit.Failf("harness/too-many-steps", "schedule did not finish")
+			return
 		}
 	}
 	c08Running.Store(nil)
 	VerifBufferYieldFn = nil
 	if f := wfail.Load(); f != nil {
-		return f // (the schedule was run to its end so that no worker goroutine is left behind)
+		fail = f // (the schedule was run to its end so that no worker goroutine is left behind)
+		return
 	}
 	// liveness as a state predicate: all workers finished, every batch handed back.
 	// A stripe at rest holds < 16 items, so 32 further sequential Adds must produce a batch.
@@ -218,7 +270,8 @@ func execC08(c c08Case, x *verifkit.Ctx) (fail *verifkit.Failure) {
 		added[id] = true
 		if pb := b.Add(ReadBufItem[int, int]{hash: id}); pb != nil {
 			if f := record(pb); f != nil {
-				return f
+				fail = f
+				return
 			}
 			b.Free()
 		}
@@ -232,17 +285,12 @@ func execC08(c c08Case, x *verifkit.Ctx) (fail *verifkit.Failure) {
 		if filledWhileOut {
 			sig = "buffer/wedged/filled-while-batch-outstanding"
 		}
-		return verifkit.Failf(sig, "after all readers finished and every batch was handed back, only %d of 48 further sequential Adds were delivered (head %d, tail %d, stripe filled while a batch was outstanding: %v)", got, b.head.Load(), b.tail.Load(), filledWhileOut)
-	}
-	x.ClassIf(filledWhileOut, "filled-while-batch-outstanding")
-	x.ClassIf(casInterleaved, "tail-cas-interleaved")
-	x.ClassIf(batches > 1, "several-batches")
-	if filledWhileOut || casInterleaved {
-		x.NonTrivial()
+		fail = verifkit.Failf(sig, "after all readers finished and every batch was handed back, only %d of 48 further sequential Adds were delivered (head %d, tail %d, stripe filled while a batch was outstanding: %v)", got, b.head.Load(), b.tail.Load(), filledWhileOut)
+		return
 	}
 	_ = runtime.Gosched
 	_ = fmt.Sprint
-	return nil
+	return
 }
 
 func TestVerifC08Buffer(t *testing.T) {
@@ -252,6 +300,160 @@ func TestVerifC08Buffer(t *testing.T) {
 		Assumptions: []string{
 			"cooperative scheduling: real goroutines, exactly one runs between two yield points (hook H5 before each atomic step); once the drawn schedule is used up the remaining workers run round-robin",
 			"liveness is checked as a state predicate at rest: after all workers finished and all batches were handed back, at least 16 of 48 further sequential Adds must be delivered",
+		},
+	})
+}
+
+// C08 (a') — bounded-exhaustive schedules: for a small drawn configuration EVERY schedule with at
+// most k preemptions is executed (a preemption = the controller switches away from a worker that
+// could have continued; when a worker finishes the lowest live one continues for free). k is the
+// largest bound whose schedule count fits the case budget, so the enumeration is complete up to k.
+
+type c08xCase struct {
+	Workers []c08Worker `json:"workers"`
+	Prefill int         `json:"prefill"`
+	MaxK    int         `json:"max_k"`
+	Budget  int         `json:"budget"` // schedules per case
+}
+
+type c08Preempt struct{ step, to int }
+
+func genC08x(t *rapid.T) c08xCase {
+	var c c08xCase
+	shape := rapid.SampledFrom([]string{"edge2", "edge2", "small2", "refill2", "edge3", "refill3"}).Draw(t, "shape")
+	small := func(name string) c08Worker {
+		return c08Worker{Adds: rapid.IntRange(1, 3).Draw(t, "adds-"+name), Hold: rapid.SampledFrom([]int{0, 0, 1, 3}).Draw(t, "hold-"+name)}
+	}
+	c.MaxK = verifkit.Scale(3, 4)
+	c.Budget = verifkit.Scale(12000, 60000)
+	switch shape {
+	case "edge2":
+		c.Workers = []c08Worker{small("a"), small("b")}
+		c.Prefill = rapid.IntRange(12, 15).Draw(t, "prefill")
+	case "small2":
+		c.Workers = []c08Worker{small("a"), small("b")}
+		c.Prefill = rapid.SampledFrom([]int{0, 7}).Draw(t, "prefill")
+	case "edge3":
+		c.Workers = []c08Worker{small("a"), small("b"), small("c")}
+		c.Prefill = rapid.IntRange(12, 15).Draw(t, "prefill")
+	case "refill2":
+		// one worker takes a batch and holds it, the other adds enough to fill the stripe again meanwhile
+		c.Workers = []c08Worker{small("a"), {Adds: rapid.IntRange(16, 18).Draw(t, "adds-refill"), Hold: rapid.SampledFrom([]int{0, 1}).Draw(t, "hold-refill")}}
+		c.Workers[0].Hold = rapid.SampledFrom([]int{1, 3, 6}).Draw(t, "hold0")
+		c.Prefill = rapid.IntRange(13, 15).Draw(t, "prefill")
+	case "refill3":
+		// a reader that can go stale, a holder whose first Adds fill the stripe, and a third that refills it
+		c.Workers = []c08Worker{
+			{Adds: rapid.IntRange(1, 2).Draw(t, "adds-a"), Hold: 0},
+			{Adds: rapid.IntRange(1, 2).Draw(t, "adds-b"), Hold: rapid.SampledFrom([]int{1, 2}).Draw(t, "hold-b")},
+			{Adds: rapid.IntRange(16, 17).Draw(t, "adds-c"), Hold: 0},
+		}
+		c.Prefill = rapid.IntRange(14, 15).Draw(t, "prefill")
+		c.Budget = verifkit.Scale(40000, 400000)
+	}
+	return c
+}
+
+func c08Binom(n, k int) float64 {
+	r := 1.0
+	for i := 0; i < k; i++ {
+		r = r * float64(n-i) / float64(i+1)
+	}
+	return r
+}
+
+func execC08x(c c08xCase, x *verifkit.Ctx) *verifkit.Failure {
+	base := c08Case{Workers: c.Workers, Prefill: c.Prefill}
+	run := func(P []c08Preempt) c08Result {
+		pi := 0
+		return runC08(base, func(steps int, last int, alive []bool) int {
+			if pi < len(P) && P[pi].step == steps {
+				pi++
+				return P[pi-1].to
+			}
+			if last >= 0 && alive[last] {
+				return last
+			}
+			return 0 // resolved to the lowest live worker
+		}, true)
+	}
+	first := run(nil)
+	if first.fail != nil {
+		return first.fail.WithHistory(first.trace)
+	}
+	n := len(first.trace)
+	nw := len(c.Workers)
+	// the largest preemption bound whose schedule count fits the budget (schedule lengths vary a
+	// little between schedules; the estimate uses the unpreempted length plus a margin)
+	k := 0
+	for k < c.MaxK {
+		tot := 0.0
+		for j := 0; j <= k+1; j++ {
+			f := c08Binom(n+8, j)
+			for q := 0; q < j; q++ {
+				f *= float64(nw - 1)
+			}
+			tot += f
+		}
+		if tot > float64(c.Budget) {
+			break
+		}
+		k++
+	}
+	var runs int64
+	anyFilled, anyCas := false, false
+	stack := [][]c08Preempt{nil}
+	for len(stack) > 0 {
+		P := stack[len(stack)-1]
+		stack = stack[:len(stack)-1]
+		r := first
+		if P != nil {
+			r = run(P)
+		}
+		runs++
+		if r.fail != nil {
+			r.fail.Msg = fmt.Sprintf("%s [schedule with %d preemption(s), workers per step: %v]", r.fail.Msg, len(P), r.trace)
+			return r.fail.WithHistory(r.trace)
+		}
+		anyFilled = anyFilled || r.filledWhileOut
+		anyCas = anyCas || r.casInterleaved
+		if len(P) >= k {
+			continue
+		}
+		from := 0
+		if len(P) > 0 {
+			from = P[len(P)-1].step + 1
+		}
+		for st := from; st < len(r.trace); st++ {
+			for w := 0; w < nw; w++ {
+				if w == r.trace[st] || r.aliveAt[st]&(1<<uint(w)) == 0 {
+					continue
+				}
+				// switching to w at step st is a preemption only if the worker that would have run could
+				// continue; the step-0 choice and choices after a worker finished are enumerated as well
+				child := append(append([]c08Preempt(nil), P...), c08Preempt{st, w})
+				stack = append(stack, child)
+			}
+		}
+	}
+	verifkit.AddCount("c08x_schedules_executed", runs)
+	x.Class(fmt.Sprintf("exhaustive-up-to-%d-preemptions", k))
+	x.Class(fmt.Sprintf("workers-%d", nw))
+	x.ClassIf(anyFilled, "some-schedule-filled-while-batch-outstanding")
+	x.ClassIf(anyCas, "some-schedule-tail-cas-interleaved")
+	if k >= 2 && (anyFilled || anyCas) {
+		x.NonTrivial()
+	}
+	return nil
+}
+
+func TestVerifC08Exhaustive(t *testing.T) {
+	verifkit.Run(t, verifkit.Spec[c08xCase]{
+		ID: "C08", Gen: genC08x, Exec: execC08x,
+		Rule: "C08(a'): rapid draws a small configuration (2..3 reader workers, 1..3 Adds each - or 16..18 for one of them so that the stripe can refill while another holds the batch; one three-worker shape is 'a reader that can go stale, a holder, a refiller' -, batch held 0..6 steps, stripe pre-filled with 0..15 items) and the executor runs EVERY schedule of it with at most k preemptions at the granularity of the atomic steps of Buffer.Add/drain/Free (hook H5), k = the largest bound (<= 3 quick, <= 4 thorough) whose schedule count fits the per-case budget; same oracle as C08(a) on every schedule (extra.c08x_schedules_executed counts them); non-trivial = k >= 2 and some schedule filled the stripe while a batch was outstanding or interleaved two workers between reading tail and their CAS",
+		Assumptions: []string{
+			"preemption-bounded enumeration: complete for the drawn configuration up to k context switches, silent about schedules with more",
+			"cooperative scheduling as in C08(a); a failing schedule is printed as the list of workers per step, the replay re-enumerates the (shrunk) configuration deterministically",
 		},
 	})
 }
